@@ -8,9 +8,12 @@ Line: `chk <hex source (ignored here)> <kind> <scrutinee type id> T <n> <def>…
 * after the patterns: `G <k> <generic class>… Y <n> <closed type of each id>…` with generic class
   `E <k> (<name> <arity> gty…)…` | `S <k> (<field> gty)…` and gty `i` | `t <index>` | `c <cls> <k> gty…`
   (`mono`: the type table is the instantiation of these classes, checked by `monoCheck`)
+* then `X <n> (<k> <0|1>…)…`: per type id, the accessibility of each struct field from the class that
+  contains the match (`visErr`); name id 0 is the enclosing function's parameter `x`
 * spat: `W` | `I <name id>` | `T <k> p…` | `O <k> (<field name> p)…` | `V <tag> <k> p…` | `R <k> p…`
 Answer: `nonexh=<counterexample or -> useless=<0|1> err=<0|1> panic=<0|1> typed=<0|1> inh=<0|1>`
-(`inh`: a rank certificate for `Inhabited'` of the type table was found and checked by `rankCheck`); variant names are
+(`hyp`: `cxOkCheck && nodupCheck` — the hypotheses `CxOk`/`SigNodup` of the theorems hold for this table; `swf`: every source
+pattern is in the domain of `normalize_sem`; `inh`: a rank certificate for `Inhabited'` of the type table was found and checked by `rankCheck`); variant names are
 printed as `#<id>` (the Python side substitutes the names). The model functions run with the fuel `usefulFuel` / `cexFuel`, proved sufficient (`useful_fuel_bound`, `cex_fuel_bound`); `fuel` would be printed if it ran out (cannot happen). -/
 namespace Driver.C07
 open SamVerif.Useful Driver
@@ -57,6 +60,12 @@ partial def parseGTy : Toks → Option (GTy × Toks)
     let (as, ts) ← parseN parseGTy (← k.toNat?) ts
     pure (.cls (← c.toNat?) as, ts)
   | _ => none
+
+def parseFlags : Toks → Option (List Bool × Toks)
+  | k :: ts => do
+    let (fl, ts) ← parseN parseNat (← k.toNat?) ts
+    pure (fl.map (· != 0), ts)
+  | [] => none
 
 def parseGVariant : Toks → Option ((Nat × List GTy) × Toks)
   | name :: ar :: ts => do
@@ -112,11 +121,6 @@ partial def render : Pat → String
     if args.isEmpty then s!"#{c.name}" else s!"#{c.name}(" ++ ", ".intercalate (args.map render) ++ ")"
 end
 
-def cxOf (defs : List Def) : Cx := fun cls =>
-  match defs.find? (fun d => match d with | .enum c _ => c = cls | _ => false) with
-  | some (.enum _ vs) => vs.map (fun v => (v.1, v.2.length))
-  | _ => []
-
 
 /-- least-fixpoint search for a rank assignment (untrusted; its result is checked by `rankCheck`) -/
 def rankStep (defs : List Def) (ranks : List (Option Nat)) : List (Option Nat) :=
@@ -142,27 +146,31 @@ def computeRanks (defs : List Def) : List Nat :=
 
 def b (x : Bool) : String := if x then "1" else "0"
 
-def answer (kind : String) (ty : Nat) (defs : List Def) (pats : List SPat) (mono : Bool) : String :=
+def answer (kind : String) (ty : Nat) (defs : List Def) (pats : List SPat) (mono : Bool)
+    (visTab : List (List Bool)) : String :=
   let sig : Sig := fun t => defs.getD t .prim
   let cx := cxOf defs
   -- if-let: `wildcard_on_bad_pattern = false` (main_checker.rs:939); match / let: `true` (981, 1539)
   let wildOnBad := kind != "iflet"
   let ns := pats.map (fun p => normalize sig wildOnBad p (some ty))
   let aps := ns.map (·.pat)
-  let err := ns.any (·.err)
+  let vis : Vis := fun t => visTab.getD t []
+  let err := ns.any (·.err) || pats.any (fun p => visErr sig vis p ty)
   let pan := ns.any (·.panic)
   let typed := aps.all (fun p => patTy sig p ty)
   let inh := rankCheck defs (computeRanks defs)
+  let hyp := cxOkCheck defs && nodupCheck defs
+  let wf := pats.all (fun p => swf sig wildOnBad p ty)
   if kind == "iflet" then
     -- main_checker.rs:940-946: useless (irrefutable) iff a wildcard is not useful after the pattern
     match isAdditionalPatternUseful cx aps .wild with
     | none => "fuel"
-    | some u => s!"nonexh=- useless={b (!u)} err={b err} panic={b pan} typed={b typed} inh={b inh} mono={b mono}"
+    | some u => s!"nonexh=- useless={b (!u)} err={b err} panic={b pan} typed={b typed} inh={b inh} mono={b mono} hyp={b hyp} swf={b wf}"
   else
     match incompleteCounterexample cx aps with
     | none => "fuel"
-    | some none => s!"nonexh=- useless=0 err={b err} panic={b pan} typed={b typed} inh={b inh} mono={b mono}"
-    | some (some d) => s!"nonexh={(render d).replace " " "~"} useless=0 err={b err} panic={b pan} typed={b typed} inh={b inh} mono={b mono}"
+    | some none => s!"nonexh=- useless=0 err={b err} panic={b pan} typed={b typed} inh={b inh} mono={b mono} hyp={b hyp} swf={b wf}"
+    | some (some d) => s!"nonexh={(render d).replace " " "~"} useless=0 err={b err} panic={b pan} typed={b typed} inh={b inh} mono={b mono} hyp={b hyp} swf={b wf}"
 
 def step (_ : Unit) (line : String) : Unit × String :=
   match words line with
@@ -172,17 +180,23 @@ def step (_ : Unit) (line : String) : Unit × String :=
       match rest with
       | "P" :: m :: rest =>
         let (pats, rest) ← parseN parsePat (← m.toNat?) rest
-        let mono := match rest with
+        let extra : Bool × List (List Bool) := match rest with
           | "G" :: k :: rest =>
             (do
               let (classes, rest) ← parseN parseGDef (← k.toNat?) rest
               match rest with
               | "Y" :: j :: rest =>
-                let (tyOf, _) ← parseN parseGTy (← j.toNat?) rest
-                pure (monoCheck classes tyOf defs)
-              | _ => none).getD false
-          | _ => false
-        pure (answer kind (← ty.toNat?) defs pats mono)
+                let (tyOf, rest) ← parseN parseGTy (← j.toNat?) rest
+                let visTab := match rest with
+                  | "X" :: n :: rest => ((do
+                      let (tab, _) ← parseN parseFlags (← n.toNat?) rest
+                      pure tab) : Option (List (List Bool))).getD []
+                  | _ => []
+                pure (monoCheck classes tyOf defs, visTab)
+              | _ => none).getD (false, [])
+          | _ => (false, [])
+        let mono := extra.1
+        pure (answer kind (← ty.toNat?) defs pats mono extra.2)
       | _ => none
     ((), r.getD "bad-line")
   | _ => ((), "bad-op")
